@@ -13,14 +13,15 @@ ENGINE = "E1"
 TECHNIQUE = "explicit-state closure: every (width,value) state x every operation vs a list-of-bits reference model"
 RULE = ("states = all (width, value) for widths 1..W plus boundary widths with structured values; "
         "transitions = every operation of the alphabet applied from every state (bit/slice read+write "
-        "with every index in -1..w and every value -1..2^len, +, views, pack_len, ==, in, rebuild); "
+        "with every index in -1..w and every value -1..2^len, +, views, pack_len, ==, in, rebuild); cross-object histories: "
+        "every ordered pair of widths explored inside one process; "
         "distinct = distinct (operation kind, outcome class) pairs observed")
 ASSUMPTIONS = [
     "reference model: python list of bits, written from the docstrings of dali/frame.py",
     "the property's 'random histories up to width 256' is replaced by small-scope closure (widths<=8 quick / <=12 thorough complete) plus an exhaustive boundary grid for widths 16,24,25,63,64,255,256",
     "documented exceptions: IndexError out-of-range index, ValueError negative/oversized value, TypeError stepped slice / non-integer operand, OverflowError pack_len too short",
 ]
-BOUNDS = {"quick": "widths 1..8 complete + boundary widths", "thorough": "widths 1..12 complete + boundary widths (larger grid)"}
+BOUNDS = {"quick": "widths 1..8 complete + boundary widths + all ordered pairs of widths {1,2,3,5,7,8,9,16,24} in one process (3 states each)", "thorough": "widths 1..12 complete + boundary widths (larger grid)"}
 
 BIG = [16, 24, 25, 63, 64, 255, 256]
 
@@ -57,6 +58,12 @@ def shards(tier):
     for w in BIG:
         out.append(("big", w, tier))
     out.append(("ctor", W))
+    # cross-object histories: the closure argument above assumes that a Frame's behaviour depends on its own
+    # (width, value) only.  Every ordered pair of widths is therefore explored inside ONE process (three states
+    # of the first width, then three of the second, all operations): anything remembered across objects shows.
+    CW = [1, 2, 3, 5, 7, 8, 9, 16, 24]
+    for a in CW:
+        out.append(("cross", a, tuple(b for b in CW if b != a)))
     return out
 
 
@@ -307,6 +314,21 @@ def run_shard(shard):
         for v in vals:
             explore_state(Frame, w, v, res, grid, values_for, small_frames, eq_states, (0, 1, nb - 1, nb, nb + 1))
         sample(res, {"state": [w, hex(vals[4])], "index_grid": grid})
+    elif shard[0] == "cross":
+        _, wa, others = shard
+        for wb in others:
+            # fresh interpretation per pair is not possible inside one process; the order wa -> wb -> wa is what matters
+            for w in (wa, wb, wa):
+                alt = int("10" * (w // 2 + 1), 2) & ((1 << w) - 1)
+                idxs = list(range(-1, w + 1)) if w <= 9 else sorted(set([-1, 0, 1, 7, 8, 9, 15, 16, w - 1, w]))
+                vf = (lambda n: range(-1, (1 << n) + 1)) if w <= 5 else \
+                    (lambda n: sorted(set([-1, 0, 1, (1 << n) // 2, (1 << n) - 1, 1 << n, ((1 << n) - 1) // 3])))
+                small_frames = [(1, 1), (3, 5), (8, 0xA5), (wb, (1 << wb) - 1), (wa, 1)]
+                for v in sorted(set([(1 << w) - 1, 0, alt])):
+                    explore_state(Frame, w, v, res, idxs, vf, small_frames, [(w, v), (wa, 0), (wb, 0)], (0, 1, 2, 3))
+        for v in res["violations"]:
+            v["case"]["cross"] = [wa, list(others)]
+        sample(res, {"cross_widths": [wa, list(others)]})
     else:
         # constructor domain
         W = shard[1]
@@ -349,6 +371,8 @@ def replay(case):
     if case.get("op") == "ctor":
         r = run_shard(("ctor", 8))
         return r["violations"]
+    if case.get("cross"):
+        return run_shard(("cross", case["cross"][0], tuple(case["cross"][1])))["violations"]
     w, v = case["w"], case["v"]
     if w <= 12:
         small_frames, eq_states = _small_env(12)
